@@ -138,6 +138,8 @@ def run(ck):
     sources += [(nm + "-inferred", strip_annotations(rng, s)) for nm, s in annotated]
     sources += [(nm, s) for nm, s in PC.corpus_sources()[:60]]
     recs = PC.run_programs(ck, sources, "c05", ninputs=4)
+    import checktie
+    checktie.check_tie_pass(ck, sources, "c05", max_programs=700 if quick else 12000)
     import lowertie
     lowertie.tie_pass(ck, [x for x in sources if not x[0].startswith("handlit")], max_programs=200 if quick else 4000)
     # sizes according to the model (Sem.sizeof on the exported types)
